@@ -30,6 +30,13 @@ import (
 )
 
 const watchdog = 10 * time.Second
+
+// hangs counts calls that did not return within the watchdog.  Each costs a
+// watchdog period; three are evidence enough, after that no case that relies
+// on a stop to end an hour's wait is run any more.
+var hangs = 0
+
+const maxHangs = 3
 const two53 = 1 << 53
 
 var drawsKnown = true
@@ -154,9 +161,9 @@ func multBits(f float64) int {
 
 type riCase struct {
 	Opts    optsJ
-	K       int   // NextCh calls made before sampling
-	Reset   bool  // Reset called after them
-	CurObs  int   // currentAttempt through the hook
+	K       int  // NextCh calls made before sampling
+	Reset   bool // Reset called after them
+	CurObs  int  // currentAttempt through the hook
 	Samples [][2]int64
 }
 
@@ -358,6 +365,7 @@ func (lr *loopRunner) next(op *loopOp) bool {
 		return true
 	case <-time.After(watchdog):
 		op.Hang = true
+		hangs++
 		return false
 	}
 }
@@ -393,6 +401,7 @@ func (lr *loopRunner) nextCh(op *loopOp, await bool) bool {
 		return true
 	case <-time.After(watchdog):
 		op.Hang = true
+		hangs++
 		return false
 	}
 }
@@ -518,6 +527,9 @@ func corpusLoops(seed int64) []loopCase {
 	}
 	var out []loopCase
 	for i, sc := range scripts {
+		if hangs >= maxHangs && sc.o.Init > 1000000000 {
+			continue
+		}
 		c := loopCase{Opts: sc.o, Class: "corpus"}
 		lr := newLoopRunner(sc.o, false, false, seed+int64(1000*i))
 		for _, op := range sc.ops {
@@ -548,18 +560,18 @@ func corpusLoops(seed int64) []loopCase {
 // ---- WithMaxAttempts
 
 type wmaCase struct {
-	Opts        optsJ
-	N           int
-	PreClosed   bool
-	PreCancel   bool
-	Pattern     []bool
-	StopAt      int // call of fn during which fn stops the loop; -1 none
-	Stopper     string
-	AsyncNs     int64 // >0: a concurrent stop after this long (not deterministic)
-	Det         bool
-	Calls       int
-	Nil         bool
-	Err         string
+	Opts         optsJ
+	N            int
+	PreClosed    bool
+	PreCancel    bool
+	Pattern      []bool
+	StopAt       int // call of fn during which fn stops the loop; -1 none
+	Stopper      string
+	AsyncNs      int64 // >0: a concurrent stop after this long (not deterministic)
+	Det          bool
+	Calls        int
+	Nil          bool
+	Err          string
 	GuardTripped bool
 }
 
@@ -638,6 +650,7 @@ func runWMA(c wmaCase) wmaCase {
 	case <-time.After(watchdog):
 		c.Calls = -1 // hung
 		c.Err = "hung"
+		hangs++
 	}
 	return c
 }
@@ -658,7 +671,11 @@ func genWMA(rng *rand.Rand) wmaCase {
 	if nn < 1 {
 		nn = 1
 	}
-	switch rng.Intn(10) {
+	kind := rng.Intn(10)
+	if hangs >= maxHangs && kind <= 3 {
+		kind = 9 // no more cases that need a stop to end an hour's wait
+	}
+	switch kind {
 	case 0, 1:
 		c.Opts = long
 		if rng.Intn(2) == 0 {
@@ -720,7 +737,7 @@ func main() {
 	}
 	ks := []int{0, 1, 2, 3, 4, 6, 9, 14, 33, 70, 150}
 	fixed := []optsJ{
-		{},                                   // all defaults: 50ms, 2s, x2, 0.15
+		{}, // all defaults: 50ms, 2s, x2, 0.15
 		{Init: 1000000, Max: 8000000, Mult: 2, RF: 0.5},
 		{Init: 10, Max: 100, Mult: 2, RF: 1}, // TestRetryExceedsMaxBackoff's scale, widest band
 		{Init: 1, Max: 1, Mult: 1, RF: 0.125},
@@ -758,19 +775,12 @@ func main() {
 		nloops = 1500
 	}
 	loops := corpusLoops(rng.Int63n(1 << 40))
-	hangs := 0
 	for i := 0; i < nloops; i++ {
 		class := []string{"short", "short", "short", "tail", "tail", "long"}[rng.Intn(6)]
-		if hangs >= 3 && class != "short" {
-			class = "short" // each hang costs a watchdog period; three are evidence enough
+		if hangs >= maxHangs && class != "short" {
+			class = "short"
 		}
-		c := genLoop(rng, class, rng.Int63n(1<<40))
-		for _, op := range c.Ops {
-			if op.Hang {
-				hangs++
-			}
-		}
-		loops = append(loops, c)
+		loops = append(loops, genLoop(rng, class, rng.Int63n(1<<40)))
 	}
 
 	// WithMaxAttempts
@@ -780,7 +790,7 @@ func main() {
 	}
 	var wmas []wmaCase
 	wmas = append(wmas,
-		runWMA(wmaCase{Opts: optsJ{Init: 1000, Max: 10000}, N: 1, StopAt: -1, Det: true}),                              // n = 1, always failing
+		runWMA(wmaCase{Opts: optsJ{Init: 1000, Max: 10000}, N: 1, StopAt: -1, Det: true}),                                   // n = 1, always failing
 		runWMA(wmaCase{Opts: optsJ{Init: 3600000000000, Max: 3600000000000}, N: 3, PreClosed: true, StopAt: -1, Det: true}), // closer closed before
 		runWMA(wmaCase{Opts: optsJ{Init: 3600000000000, Max: 3600000000000}, N: 3, PreCancel: true, StopAt: -1, Det: true}),
 		runWMA(wmaCase{Opts: optsJ{Init: 1000, Max: 10000}, N: 3, Pattern: []bool{false, false, true}, StopAt: -1, Det: true}),
@@ -890,10 +900,10 @@ func main() {
 	}
 	vh.WriteJSON(*out, "summary.json", map[string]interface{}{
 		"ri": len(ris), "ri_samples": samples, "option_sets": nsets, "loop": len(loops), "wma": len(wmas),
-		"draws_known": drawsKnown,
+		"draws_known":  drawsKnown,
 		"loop_classes": classes, "loop_waited_attempts": waits, "loop_stops": stops, "loop_async_stops": asyncs,
-		"loop_hangs": hangN, "loop_known_shape": knownShape, "wma_kinds": wmaKinds,
+		"loop_hangs": hangN, "hangs_total": hangs, "loop_known_shape": knownShape, "wma_kinds": wmaKinds,
 		"distinct_nontrivial": len(nontriv),
-		"samples": []interface{}{trim(ris[0]), trim(ris[len(ris)-1]), loops[0], loops[len(loops)-1], wmas[0], wmas[len(wmas)-1]},
+		"samples":             []interface{}{trim(ris[0]), trim(ris[len(ris)-1]), loops[0], loops[len(loops)-1], wmas[0], wmas[len(wmas)-1]},
 	})
 }
